@@ -392,12 +392,13 @@ PROPS["C01"] = {
     "level": "other",
     "prepare": prepare_expand,
     "govc": [{"dir": "{gen}/" + c, "pkgs": ["./lexer"], "contracts": [STDLIB, LEXGEN_CONTRACTS], "prop": "C01"} for c in ("lexonly", "recover")]
-            + [{"dir": "{repo}", "pkgs": ["./internal/lexer/items", "./internal/ast"], "contracts": [ITEMS_CONTRACTS, AST_CONTRACTS], "prop": "C01"}],
+            + [{"dir": "{repo}", "pkgs": ["./internal/lexer/items", "./internal/ast"], "contracts": [ITEMS_CONTRACTS, AST_CONTRACTS], "prop": "C01"},
+               {"dir": "{repo}", "pkgs": ["./internal/lexer/gen/golang"], "contracts": ["{repo}/internal/lexer/gen/golang/zz_contracts_gen_verif.go", ITEMS_CONTRACTS, AST_CONTRACTS], "prop": "C01"}],
     "bounded": scan_bounded("C01"),
     "extra": [extra_parametric_lexer],
     "trusted_base": COMMON_TRUSTED + ["text/template expansion (the expanded lexer package is what is verified)"],
     "assumptions": SCAN_ASSUME + ["Live and IgnChain are inductive predicates given by introduction rules only (sound for the least fixed point)",
-                                  "generator side: ItemSet.Action (which pattern a lexer state accepts: a string literal of the syntax part wins over every named pattern, otherwise the earliest declared pattern; nil when no token or ignored-token pattern is completely matched) is proved for all item lists, with Item.Reduce trusted to be a pure function of the item; the subset construction itself (Emoves, Move, Next, ItemSets.Closure) and the table rendering are decided by the bounded LEX sweep only"],
+                                  "generator side: ItemSet.Action (which pattern a lexer state accepts: a string literal of the syntax part wins over every named pattern, otherwise the earliest declared pattern; nil when no token or ignored-token pattern is completely matched) is proved for all item lists, with Item.Reduce trusted to be a pure function of the item; getActTab (the action row of a state: Accept = 0, i.e. INVALID, and no ignore name for a state without a complete match, the token package's number of the winning token, or -1 and the name of the winning ignored token) is proved for all automata and token maps; the subset construction itself (Emoves, Move, Next, ItemSets.Closure) and the table rendering are decided by the bounded LEX sweep only"],
     "explanation": "Run-time half, proved for arbitrary WF_lex tables and arbitrary byte strings (ill-formed UTF-8 included): one Scan call skips a chain of ignored lexemes each taken as soon as it is complete, then follows the DFA run from state 0 for as long as a transition exists and returns the verdict of the last state (token with exactly that text; INVALID, consuming the rune that killed the run, when the last state has no verdict or no rune could be read), and EOF for ever once the input is exhausted. Generator half (the emitted DFA is the automaton of the lexical rules: subset construction, priorities, '.' semantics, regular definitions): bounded sweep against an independent reference automaton, labelled bounded.",
 }
 
